@@ -122,6 +122,13 @@ func oneRun(o *kit.Out, r *kit.Rand, forceSaturated int) {
 		}
 	}
 	trig := &api.Trigger{Trigger: api.NewIterationWorker(tickInterval, outer), Description: "verif"}
+	// as the rate builders do: the dry-run function of the trigger is the very rate closure the
+	// ticking goroutine evaluates; and every other run logs at debug level
+	shareDryRun := r.Chance(60)
+	if shareDryRun {
+		trig.DryRun = outer
+	}
+	debug := r.Bool()
 	var started atomic.Int64
 	var setupDone atomic.Int64
 	scenario := func(*f1testing.T) f1testing.RunFn {
@@ -176,10 +183,14 @@ func oneRun(o *kit.Out, r *kit.Rand, forceSaturated int) {
 		conc = 256
 		runFor = 1000 * time.Millisecond
 	}
-	cfg := runkit.Config{Mode: "custom", Scenario: scenario, Ctx: context.Background(),
+	cfg := runkit.Config{Mode: "custom", Scenario: scenario, Ctx: context.Background(), Debug: debug,
 		Opts: options.RunOptions{MaxDuration: runFor, Concurrency: conc, IgnoreDropped: true}}
+	callAt := mono() // before the run's duration starts to count
 	out := runkit.DoWithTrigger(cfg, trig)
 	close(stopNoise)
+	if shareDryRun && debug {
+		o.Count("logging", "debug level, dry-run function shared with the trigger")
+	}
 	if out.Err != nil || out.Result == nil {
 		o.Fail("c09-run-error", fmt.Sprintf("run failed: %v", out.Err))
 		return
@@ -231,8 +242,18 @@ func oneRun(o *kit.Out, r *kit.Rand, forceSaturated int) {
 	o.Count("distribution", dist)
 	o.AddStat("evaluations", int64(len(times)))
 	// started + dropped ties the requests to the values (plenty of instant workers: every request starts or is superseded)
+	// evaluations at or after callAt + runFor may have come after triggering stopped (the loop's
+	// select picks at random between the cancellation and a tick that is ready too - with tiny
+	// intervals or a starved process that can happen several times in a row): the pool refuses those
+	late := int64(0)
+	for _, tm := range times {
+		if tm >= callAt+int64(runFor) {
+			late++
+		}
+	}
+	o.Count("late-evaluations", kit.Bucket(late))
 	o.Case("c09_ok", []string{kit.I(int64(tickInterval)), kit.Ints(times), kit.Ints(values),
-		kit.I(started.Load()), kit.I(sn.DroppedIterationCount), "T"}, "T", tags...)
+		kit.I(started.Load()), kit.I(sn.DroppedIterationCount), "T", kit.I(late)}, "T", tags...)
 }
 
 func TestC09(t *testing.T) {
